@@ -117,8 +117,12 @@ def native_batch(requests, timeout=900):
 
 
 def run_one(ob, tier):
+    from . import interp as _interp
+
     s0, q0 = solver.STATS.time, solver.STATS.queries
     t0 = time.time()
+    _interp.EXECUTED_FUNCS.clear()
+    _interp.EXECUTED_LINES.clear()
     try:
         r = ob.run(tier)
     except Unsupported as e:
@@ -133,6 +137,8 @@ def run_one(ob, tier):
     r.queries = solver.STATS.queries - q0
     r.mode = ob.mode
     r.ob = ob
+    # measured: what this obligation executed symbolically (the sets are emptied in front of every obligation, so the module load is not counted)
+    r.exec_funcs, r.exec_lines = set(_interp.EXECUTED_FUNCS), set(_interp.EXECUTED_LINES)
     return r
 
 
@@ -170,6 +176,36 @@ def run_pack(pack, tier="quick", seed=0, only=None):
             for k, v in r.backends.items():
                 solver.STATS.by_backend[k] = solver.STATS.by_backend.get(k, 0) + v
     return results, time.time() - t0
+
+
+def executed_report(results):
+    """Measured coverage of the source under verification by the DEDUCTIVE obligations of this run: for every function of the package that
+    was entered symbolically, how many of its statements were executed on some path of some obligation."""
+    import ast
+
+    funcs, lines = set(), set()
+    for r in results:
+        if r.ob.kind in ("proof", "canary"):
+            funcs |= getattr(r, "exec_funcs", set())
+            lines |= getattr(r, "exec_lines", set())
+    out, trees = {}, {}
+    for mod, qual in sorted(funcs):
+        if mod not in trees:
+            base = os.path.join(REPO, *mod.split("."))
+            f = base + ".py" if os.path.isfile(base + ".py") else os.path.join(base, "__init__.py")
+            try:
+                trees[mod] = ast.parse(open(f).read())
+            except Exception:
+                trees[mod] = None
+        node = trees[mod]
+        for part in qual.split("."):
+            node = next((n for n in getattr(node, "body", []) if isinstance(n, (ast.FunctionDef, ast.AsyncFunctionDef, ast.ClassDef)) and n.name == part), None) if node is not None else None
+        if node is None:
+            continue  # nested function / lambda / generated code: counted with its enclosing function's statements
+        stmts = {n.lineno for b in node.body for n in ast.walk(b) if isinstance(n, ast.stmt) and not (isinstance(n, ast.Expr) and isinstance(n.value, ast.Constant))}
+        hit = {ln for (m, ln) in lines if m == mod and ln in stmts}
+        out[f"{mod}:{qual}"] = [len(hit), len(stmts), sorted(stmts - hit)]
+    return out
 
 
 def finish(pack, results, wall, tier, seed, write_evidence=True):
@@ -275,6 +311,7 @@ def finish(pack, results, wall, tier, seed, write_evidence=True):
     for r in real:
         by_status[r.status] = by_status.get(r.status, 0) + 1
     slow = sorted(real, key=lambda r: -getattr(r, "wall", 0))[:5]
+    executed = executed_report(results)
     coverage = {
         "obligations": n_ob,
         "discharged": n_dis,
@@ -282,6 +319,9 @@ def finish(pack, results, wall, tier, seed, write_evidence=True):
         "trusted_base": ["CPython ast module (parser)", "pyvc symbolic interpreter and its encoding of Python semantics (DESIGN.md 2.4; sampled against CPython by the 'cross' obligations)",
                          "z3 5.1.0 (python3-vt); cvc5 for unknowns / thorough re-discharge", "spec functions in /verif/spec and the contract texts in /verif/contracts"] + sorted(f"assumed model: {k}" for k in ASSUMPTIONS),
         "functions_under_contract": sorted(pack.functions),
+        "functions_executed": executed,
+        "functions_executed_note": f"measured on this run: {len(executed)} functions of the source under verification were entered symbolically by the deductive obligations; "
+                                   f"[statements executed on some path, statements of the function, line numbers of the statements no obligation reached]; {sum(1 for a, b, _ in executed.values() if a == b)} of them with every statement reached",
         "source_root": REPO,
         "backends": dict(solver.STATS.by_backend),
         "solver_time_s": round(solver.STATS.time, 3),
